@@ -9,8 +9,9 @@ mkdir -p $DST
 cp $SRC/_seed/patch.diff $DST/patch.diff
 cp $SRC/_seed/demo.rs $DST/demo.rs 2>/dev/null
 cp $SRC/_seed/notes.md $DST/notes.md 2>/dev/null
-SCR=/var/tmp/sg-seed
-export CARGO_TARGET_DIR=/var/tmp/sg-seed-target
+SLOT=${SEED_SLOT:-}
+SCR=/var/tmp/sg-seed$SLOT
+export CARGO_TARGET_DIR=/var/tmp/sg-seed-target$SLOT
 git -C /repo worktree remove --force $SCR >/dev/null 2>&1; rm -rf $SCR
 git -C /repo worktree add --detach $SCR HEAD >/dev/null 2>&1
 cd $SCR
@@ -29,7 +30,7 @@ echo "SEED $NAME: with patch, demo:        $WD"
 echo "SEED $NAME: without patch, demo:     $WO"
 RES=""
 for P in $PROP "$@"; do
-  R=$(selftest/mutant.sh $DST/patch.diff $P 2>&1 | grep -E "^mutant=|sig=" | head -3)
+  R=$(MUT_SCR=/var/tmp/sg-mut${SLOT:-0} selftest/mutant.sh $DST/patch.diff $P 2>&1 | grep -E "^mutant=|sig=" | head -3)
   echo "$R"
   RES="$RES$P: $(echo "$R" | head -1 | sed 's/.*rc=/rc=/'); "
 done
